@@ -384,6 +384,21 @@ def gen_c04(rng, tier, mult=1):
         for ext in ("xe", "p", "-old", "%2dold", ".", "%2f..", " "):
             for tail in (TAILS[:3] if "root_dir" in cfg else [[], ["a.txt"]]):
                 yield c04_case(proto, cfg, list(tail), "lookalike-prefix", ext=ext)
+    # "://" inside an ordinary request (a URL in the query string, a path segment that looks like a scheme): it is
+    # a path like any other, the part behind it is not a second request target
+    for proto, cfg in cfgs:
+        if "root_dir" not in cfg:
+            continue
+        rp = cfg["request_path"]
+        base = "" if rp == "/" else rp.replace("...", "sysA")
+        for emb in ("http://server" + base + "/a.txt", "x://h" + base + "/a.txt", "://" + base.lstrip("/") + "/a.txt",
+                    "tftp://[::1]" + base + "/b/c.txt"):
+            yield c04_case(proto, cfg, ["b", "c.txt?next=" + emb], "embedded-url")
+            yield c04_case(proto, cfg, ["missing?src=" + emb], "embedded-url")
+            yield c04_case(proto, cfg, [emb], "embedded-url")
+            case = c04_case(proto, cfg, ["a.txt"], "embedded-url")
+            case["req"] = "/elsewhere/" + emb           # not below the configured request path at all
+            yield case
     k = 0
 
     def rot():
